@@ -26,4 +26,16 @@ CLAIMS["C14"] = {
         "note": "Trusts: list.copy/list() make independent lists; each design object is evaluated in one batch only; evaluate_scalar is outside the claim.",
     }
 
+CLAIMS["C19"] = {
+    "category": "other",
+    "technique": "exhaustive path enumeration (callee inlined, guard feasibility) with value-provenance tracking and effect counting per path",
+    "text": "Enumerates every control-flow path of SurrogateModelPredict.evaluate (evaluate_individual inlined) and of the pass-through "
+            "surrogate over the atoms {trained, hook present, hook result None, train_step=-1, counter divisible} and decides per path: "
+            "exactly one counter increment; a hook result is returned only under trained & hook & not-None; otherwise one objective call, "
+            "returned unmodified (provenance), add_data(vector,value) once after it, increment before the modulo, train() iff enabled and "
+            "divisible; every train() leaves trained True. Because requests are independent given the state atoms, the per-path table "
+            "covers every request sequence and every hook decision pattern, which the tests never assert.",
+    "note": "Trusts: self.problem.surrogate aliases the surrogate; objective/hook do not touch the bookkeeping; loops in callee train() bounded 0/1.",
+}
+
 NOT_APPLICABLE = {}
